@@ -57,13 +57,18 @@ def gen_filter1(rng, spec):
     n = spec["n"]
     op = rng.choice(["==", ">", ">=", "<", "<=", "!=", "in", "not in"])
     if col == "i":
-        v = lambda: rng.randrange(0, n + 1)
+        per = spec["offsets"][1] if len(spec["offsets"]) > 1 else n
+        # mostly row-group boundaries (and their neighbours): the selection of row groups varies, sizes repeat
+        v = lambda: (rng.choice(spec["offsets"] + [n]) + rng.choice([0, 0, 0, -1, 1])) if rng.random() < 0.7 else rng.randrange(0, n + 1)
     elif col == "f":
         v = lambda: round(rng.random() * (n + 100), 1)
     elif col == "s":
         v = lambda: "r%d" % rng.randrange(0, 8)
     elif col == "t":
-        v = lambda: {"dt": "2020-01-%02dT%02d:00" % (1 + rng.randrange(0, max(1, n // 24 + 1)), rng.randrange(0, 24))}
+        def v():
+            h = rng.choice(spec["offsets"] + [n]) + rng.choice([0, 0, -1, 1]) if rng.random() < 0.6 else rng.randrange(0, n + 1)
+            h = max(0, h)
+            return {"dt": "2020-01-%02dT%02d:00" % (1 + h // 24, h % 24)}
     elif col == "o":
         v = lambda: rng.randrange(-50, 50)
     else:
@@ -184,20 +189,35 @@ def run(ctx):
         path = conc.build_dataset(spec, root)
         datasets.append((spec, path, Solo(path)))
 
+    import time
+    tm = ctx.extra.setdefault("phase_seconds", {})
+    t0 = time.time()
+
+    def lap(name):
+        nonlocal t0
+        tm[name] = round(time.time() - t0, 1)
+        t0 = time.time()
     # ---- tie 1: the footprint premise, operation by operation --------------------------------
     footprint_premise(ctx, pq, datasets, rng, quick)
+    lap("footprint")
 
     # ---- tie 2 (information): the model of schema_tree against schema.py, and the refuted schedule on the real code
     tree_model(ctx, pq, rng, quick)
+    lap("tree_model")
 
     # ---- oracle 1: deterministic preemption at shared writes / at lines (real threads) --------
     forced_search(ctx, datasets, rng, quick)
+    lap("forced")
+    storm_search(ctx, datasets, rng, quick)
+    lap("storm")
 
     # ---- oracle 2: free-running threads ---------------------------------------------------------
     stress(ctx, datasets, rng, quick)
+    lap("stress")
 
     # ---- part-file writers ------------------------------------------------------------------
     part_writers(ctx, pq, rng, quick)
+    lap("part_writers")
     pq.close()
 
 
@@ -287,7 +307,7 @@ def conc_generic_key(k):
 
 
 def tree_model(ctx, pq, rng, quick):
-    n = 25 if quick else 150
+    n = 40 if quick else 300
     agree = 0
     total = 0
     first_bad = None
@@ -358,7 +378,7 @@ def check_pair(ctx, spec, path, solo, ops, plan, what):
 
 
 def forced_search(ctx, datasets, rng, quick):
-    budget = 36 if quick else 400
+    budget = 90 if quick else 600
     per_ds = budget // len(datasets)
     for spec, path, solo in datasets:
         pool = [dict(o) for o in FIXED_OPS] + [gen_op(rng, spec) for _ in range(6 if quick else 30)]
@@ -380,21 +400,77 @@ def forced_search(ctx, datasets, rng, quick):
             nw, nl = wp[okey(a)]
             b = rng.choice(pool)
             ks = list(range(0, nw + 1))
-            if len(ks) > 3:
-                ks = [0] + rng.sample(ks[1:], 2)
+            if len(ks) > 4:
+                ks = [0, 1] + sorted(rng.sample(ks[2:], 2))
             for k in ks:
                 check_pair(ctx, spec, path, solo, [a, b], [[0, k, "writes"], [1, BIG, "lines"]], "after-write-%s" % ("0" if k == 0 else "k"))
                 done += 1
-            # a preemption at an arbitrary line of a, and one in the middle of b
+                if k > 0:
+                    # read side of the discipline: the same operation (reader of the very keys a writes) right after a's k-th write
+                    check_pair(ctx, spec, path, solo, [a, a], [[0, k, "writes"], [1, BIG, "lines"]], "after-write-k-same-op")
+                    done += 1
+            # a preemption at an arbitrary line of a
             if nl > 2:
                 k = rng.randrange(1, nl)
                 check_pair(ctx, spec, path, solo, [a, b], [[0, k, "lines"], [1, BIG, "lines"]], "at-line")
                 done += 1
 
 
+def check_storm(ctx, spec, path, solo, a, b, every, phase):
+    from fastparquet import ParquetFile
+    pf = ParquetFile(path)
+    ares, bres, calls, dead = conc.storm_run(pf, a, b, every=every, phase=phase)
+    gb = conc.canon(bres)
+    case = {"mode": "storm", "dataset": spec, "ops": [a, b], "every": every, "phase": phase}
+    ctx.case(case)
+    ctx.count("storm.pair", a["op"] + "|" + b["op"])
+    ctx.extra["storm_calls"] = ctx.extra.get("storm_calls", 0) + calls
+    wa, wb = solo(a), solo(b)
+    failed = False
+    if gb != wb or dead:
+        failed = True
+        ctx.fail({"component": "shared-handle", "op": b["op"], "other": a["op"], "symptom": "hang" if dead else symptom(gb), "mode": "storm"},
+                 dict(case, failing_thread=1, solo=wb, got=gb),
+                 "%s preempted at every %d-th line by a complete %s: %r, alone: %r" % (okey(b), every, okey(a), gb, wb))
+    for ga in ares:
+        if ga != wa:
+            failed = True
+            ctx.fail({"component": "shared-handle", "op": a["op"], "other": b["op"], "symptom": symptom(ga), "mode": "storm"},
+                     dict(case, failing_thread=0, solo=wa, got=ga),
+                     "%s run between the lines of %s: %r, alone: %r" % (okey(a), okey(b), ga, wa))
+            break
+    return failed
+
+
+def storm_search(ctx, datasets, rng, quick):
+    """op b preempted at (nearly) every line, a complete op a in each gap.  a = the operations that write
+    shared state on this tree (known from their footprint) first, then derived-handle operations."""
+    from fastparquet import ParquetFile
+    npairs = 24 if quick else 96
+    max_calls = 800 if quick else 4000
+    broken = bool(ctx.broken)
+    if broken:
+        npairs, max_calls = (24, 2500) if quick else (96, 8000)
+    for n_, (spec, path, solo) in enumerate(datasets):
+        writers = [{"op": "count", "filters": [["i", ">", 1]]}, {"op": "statistics"}, {"op": "slice_only", "i": 0, "j": 1},
+                   {"op": "head", "n": 3, "columns": ["i"]}, {"op": "to_pandas", "columns": ["f"], "filters": [["f", ">", 5.0]]},
+                   {"op": "index", "i": 0, "columns": ["i"]}]
+        readers = [{"op": "columns"}, {"op": "to_pandas"}, {"op": "statistics"}, {"op": "count", "filters": [["i", ">", 1]]},
+                   {"op": "pickle"}, {"op": "head", "n": 4}, {"op": "iter", "columns": ["i", "s"]},
+                   {"op": "to_pandas", "columns": ["s", "i"], "filters": [["i", "<=", spec["offsets"][1]]]}]
+        pairs = [(a, b) for a in writers for b in readers]
+        rng.shuffle(pairs)
+        # the cheap derived-handle operation against the small readers always
+        pairs = [(writers[2], readers[0]), (writers[0], readers[3])] + pairs
+        for a, b in pairs[:max(2, npairs // len(datasets))]:
+            nl = conc.count_steps(ParquetFile(path), b)
+            every = max(1, -(-nl // max_calls))
+            check_storm(ctx, spec, path, solo, a, b, every, rng.randrange(every))
+
+
 def stress(ctx, datasets, rng, quick):
     from fastparquet import ParquetFile
-    rounds = 14 if quick else 120
+    rounds = 32 if quick else 240
     for r in range(rounds):
         spec, path, solo = datasets[r % len(datasets)]
         nt = [2, 3, 4, 8, 16, 2, 6, 12][r % 8] if r >= 2 else [2, 16][r]
@@ -407,6 +483,18 @@ def stress(ctx, datasets, rng, quick):
             # make sure derived handles and filtered reads meet plain reads in every round
             lists[0][0] = gen_op(rng, spec, rng.choice(["slice", "iter", "head", "index"]))
             lists[1][0] = gen_op(rng, spec, "to_pandas")
+            # same shape, different row groups: two reads whose outputs have equal size and columns but different content
+            offs = spec["offsets"]
+            if len(offs) >= 2 and nt >= 2:
+                cut = offs[1]
+                cols = rng.choice([None, ["i", "s"]])
+                pair = [{"op": "to_pandas", "filters": [["i", "<", cut]]}, {"op": "to_pandas", "filters": [["i", ">=", cut], ["i", "<", 2 * cut]]}]
+                for o in pair:
+                    if cols:
+                        o["columns"] = cols
+                lists[0].append(pair[0])
+                lists[1].append(pair[1])
+                lists[rng.randrange(nt)].append(pair[rng.randrange(2)])
         pf = ParquetFile(path)
         early, late, hung = conc.stress_run(pf, lists, rng)
         case = {"mode": "stress", "dataset": spec, "op_lists": lists}
@@ -463,7 +551,7 @@ def part_writers(ctx, pq, rng, quick):
     sequential ones; footprint on the shared object: no write at all (premise of C20_part_writer)"""
     import numpy as np
     from fastparquet import writer
-    rounds = 5 if quick else 40
+    rounds = 8 if quick else 50
     for r in range(rounds):
         spec = gen_dataset(rng, "single", small=True)
         spec["nthreads"] = [2, 4, 8, 16, 3][r % 5]
@@ -514,6 +602,22 @@ def part_round(spec, scratch, tag, rng, trace=False, reps=1):
             traces.append(changes)
             if conc.canon(res) != ref[i]:
                 bad.append(["sequential-shared", symptom(conc.canon(res)), i, conc.canon(res), ref[i]])
+    # forced two-writer schedules: writer a preempted right after each of its writes to the shared object (none on a
+    # tree that satisfies the ownership premise) and at two arbitrary lines; writer b runs completely in the gap
+    if trace:
+        nw = max(len(ch) - 1 for ch in traces)
+        nl = conc.count_steps(None, {"op": "part", "i": 0}, dict(shared, paths=paths("cnt")))
+        plans = [[[0, k, "writes"], [1, 10 ** 9, "lines"]] for k in range(1, min(nw, 3) + 1)]
+        plans += [[[0, rng.randrange(1, max(2, nl)), "lines"], [1, 10 ** 9, "lines"]] for _ in range(2)]
+        plans.append([[0, max(1, nl - rng.randrange(1, 12)), "lines"], [1, 10 ** 9, "lines"]])
+        for pi, plan in enumerate(plans):
+            a, b = rng.sample(range(nt), 2)
+            shf = dict(shared, paths=paths("forced%d" % pi))
+            res, steps, dead = conc.forced_run(None, [{"op": "part", "i": a}, {"op": "part", "i": b}], [list(p) for p in plan], shared=shf, root=fmd)
+            for t_, i in enumerate((a, b)):
+                g = conc.canon(res[t_])
+                if g != ref[i] or dead:
+                    bad.append(["forced", "hang" if dead else symptom(g), i, g, ref[i], plan, [a, b]])
     early, late, hung = conc.stress_run(None, [[{"op": "part", "i": i}] for i in range(nt)], rng, shared=shared)
     for i in range(nt):
         if late[i][0] != ref[i] or hung:
@@ -562,6 +666,21 @@ def replay(rep):
                 print("thread %d %s\n   under schedule %s: %r\n   alone: %r\n   -> %s" % (
                     i, okey(op), case["plan"], got[i], want, "same" if ok else "PROPERTY FAILS"))
                 bad |= (not ok)
+            return int(bad)
+        if mode == "storm":
+            pf = ParquetFile(path)
+            a, b = case["ops"]
+            ares, bres, calls, dead = conc.storm_run(pf, a, b, every=case["every"], phase=case["phase"])
+            gb = conc.canon(bres)
+            wa, wb = solo(a), solo(b)
+            bad = 0
+            okb = (gb == wb) and not dead
+            print("thread 1 %s preempted at every %d-th line, thread 0 runs %s in each gap (%d calls)\n   thread 1: %r\n   alone:    %r\n   -> %s" % (
+                okey(b), case["every"], okey(a), calls, gb, wb, "same" if okb else "PROPERTY FAILS"))
+            bad |= (not okb)
+            for ga in ares:
+                print("   thread 0 result %r, alone %r -> %s" % (ga, wa, "same" if ga == wa else "PROPERTY FAILS"))
+                bad |= (ga != wa)
             return int(bad)
         if mode == "sequence":
             pf = ParquetFile(path)
